@@ -124,3 +124,346 @@ theorem Frag.toNode_safe (f : Frag) : f.toNode.Safe := by
     · intro k hk; simp at hk; subst hk; exact Node.Safe.text _ (escapeHtmlText_safe c)
 
 end Svgbob
+
+namespace Svgbob
+
+/-! ### `{tag}` names are identifiers -/
+
+def IdentList (t : List Char) : Prop := ∀ c ∈ t, identCont c = true
+
+theorem identStart_identCont (c : Char) (h : identStart c = true) : identCont c = true := by
+  simp only [identStart, alphaU8, Bool.or_eq_true, Bool.and_eq_true, decide_eq_true_eq,
+    beq_iff_eq] at h
+  simp only [identCont, alnumU8, Bool.or_eq_true, Bool.and_eq_true, decide_eq_true_eq, beq_iff_eq]
+  rcases h with (h | h) | h
+  · left; left; left; exact h
+  · left; left; right; exact h
+  · right; exact h
+
+theorem mem_takeWhile_sat (p : Char → Bool) (l : List Char) (d : Char)
+    (h : d ∈ l.takeWhile p) : p d = true := by
+  induction l with
+  | nil => simp at h
+  | cons c cs ih =>
+    simp only [List.takeWhile] at h
+    split at h
+    · rename_i hc
+      rcases List.mem_cons.mp h with rfl | h
+      · exact hc
+      · exact ih h
+    · simp at h
+
+theorem ident_identList {cs n r : List Char} (h : ident cs = some (n, r)) : IdentList n := by
+  cases cs with
+  | nil => simp [ident] at h
+  | cons c cs =>
+    simp only [ident] at h
+    split at h
+    · rename_i hs
+      simp at h
+      obtain ⟨rfl, _⟩ := h
+      intro d hd
+      rcases List.mem_cons.mp hd with rfl | hd
+      · exact identStart_identCont _ hs
+      · exact mem_takeWhile_sat identCont cs d hd
+    · simp at h
+
+theorem classesMore_identList (fuel : Nat) (cs : List Char) :
+    ∀ t ∈ (classesMore fuel cs).1, IdentList t := by
+  induction fuel generalizing cs with
+  | zero => simp [classesMore]
+  | succ fuel ih =>
+    simp only [classesMore]
+    split
+    · simp
+    · split
+      · simp
+      · rename_i item cs2 hid
+        intro t ht
+        have hrec := ih cs2
+        revert ht
+        cases hcm : classesMore fuel cs2 with
+        | mk items r =>
+          rw [hcm] at hrec
+          simp only [List.mem_cons]
+          rintro (rfl | ht)
+          · exact ident_identList hid
+          · exact hrec t ht
+
+theorem parseCssTag_identList {cs : List Char} {ts : List (List Char)}
+    (h : parseCssTag cs = some ts) : ∀ t ∈ ts, IdentList t := by
+  unfold parseCssTag at h
+  split at h
+  · simp at h
+  · rename_i cs1 _
+    simp only at h
+    split at h
+    · simp at h
+    · simp at h; subst h
+      unfold classes
+      split
+      · simp
+      · rename_i item cs2 hid
+        have hrec := classesMore_identList cs2.length cs2
+        cases hcm : classesMore cs2.length cs2 with
+        | mk items r =>
+          rw [hcm] at hrec
+          intro t ht
+          simp only [List.mem_cons] at ht
+          rcases ht with rfl | ht
+          · exact ident_identList hid
+          · exact hrec t ht
+
+theorem asCssTag_identList (f : Frag) : ∀ t ∈ f.asCssTag, IdentList t := by
+  cases f <;> simp only [Frag.asCssTag, List.not_mem_nil, false_implies, implies_true]
+  all_goals
+    rename_i st c
+    cases h : parseCssTag c with
+    | none => simp
+    | some ts => simpa using parseCssTag_identList h
+
+/-! ### the containment forest keeps only identifier tags -/
+
+inductive FTree.TagsOk : FTree → Prop
+  | node (f : Frag) (tags : List (List Char)) (kids : List FTree) :
+      (∀ t ∈ tags, IdentList t) → (∀ k ∈ kids, FTree.TagsOk k) → FTree.TagsOk (.node f tags kids)
+
+theorem addClasses_safe (tags : List (List Char)) (n : Node) (hn : n.Safe)
+    (ht : ∀ t ∈ tags, IdentList t) : (addClasses tags n).Safe := by
+  cases hn with
+  | text s hs => exact Node.Safe.text s hs
+  | elem t attrs kids ha hk =>
+    have hvals : ∀ v ∈ tags.map AttrVal.token, v.Safe := by
+      intro v hv
+      simp only [List.mem_map] at hv
+      obtain ⟨t, htm, rfl⟩ := hv
+      exact ht t htm
+    simp only [addClasses]
+    split
+    · refine Node.Safe.elem _ _ _ ?_ hk
+      intro a ham v hv
+      simp only [List.mem_map] at ham
+      obtain ⟨a0, ha0, rfl⟩ := ham
+      split at hv
+      · simp only [List.mem_append] at hv
+        rcases hv with hv | hv
+        · exact ha a0 ha0 v hv
+        · exact hvals v hv
+      · exact ha a0 ha0 v hv
+    · refine Node.Safe.elem _ _ _ ?_ hk
+      intro a ham v hv
+      simp only [List.mem_append, List.mem_cons, List.mem_nil_iff, or_false] at ham
+      rcases ham with ham | rfl
+      · exact ha a ham v hv
+      · exact hvals v hv
+
+mutual
+theorem FTree.intoNodes_safe : ∀ (t : FTree), t.TagsOk → ∀ n ∈ t.intoNodes, n.Safe
+  | .node f tags kids, h => by
+    cases h with
+    | node _ _ _ htags hkids =>
+      intro n hn
+      simp only [FTree.intoNodes, List.mem_cons] at hn
+      rcases hn with rfl | hn
+      · exact addClasses_safe tags _ (Frag.toNode_safe f) htags
+      · exact FTree.intoNodesList_safe kids hkids n hn
+
+theorem FTree.intoNodesList_safe : ∀ (ts : List FTree), (∀ k ∈ ts, k.TagsOk) →
+    ∀ n ∈ FTree.intoNodesList ts, n.Safe
+  | [], _ => by simp [FTree.intoNodesList]
+  | k :: ks, h => by
+    intro n hn
+    simp only [FTree.intoNodesList, List.mem_append] at hn
+    rcases hn with hn | hn
+    · exact FTree.intoNodes_safe k (h k (by simp)) n hn
+    · exact FTree.intoNodesList_safe ks (fun k' hk' => h k' (List.mem_cons_of_mem _ hk')) n hn
+end
+
+mutual
+theorem FTree.encloseDF_tagsOk (len : List Char → Nat) (unit : Int) (other : FTree)
+    (ho : other.TagsOk) : ∀ (t t' : FTree), t.TagsOk → FTree.encloseDF len unit other t = some t' →
+      t'.TagsOk
+  | .node f tags kids, t', h, he => by
+    cases h with
+    | node _ _ _ htags hkids =>
+      simp only [FTree.encloseDF] at he
+      split at he
+      · rename_i kids' hk'
+        simp at he; subst he
+        exact FTree.TagsOk.node _ _ _ htags
+          (FTree.encloseDFList_tagsOk len unit other ho kids kids' hkids hk')
+      · split at he
+        · split at he
+          · simp at he; subst he
+            refine FTree.TagsOk.node _ _ _ ?_ hkids
+            intro t ht
+            rcases List.mem_append.mp ht with ht | ht
+            · exact htags t ht
+            · exact asCssTag_identList _ t ht
+          · simp at he; subst he
+            refine FTree.TagsOk.node _ _ _ htags ?_
+            intro k hk
+            rcases List.mem_append.mp hk with hk | hk
+            · exact hkids k hk
+            · simp at hk; subst hk; exact ho
+        · simp at he
+
+theorem FTree.encloseDFList_tagsOk (len : List Char → Nat) (unit : Int) (other : FTree)
+    (ho : other.TagsOk) : ∀ (ks ks' : List FTree), (∀ k ∈ ks, k.TagsOk) →
+      FTree.encloseDFList len unit other ks = some ks' → ∀ k ∈ ks', k.TagsOk
+  | [], ks', _, he => by simp [FTree.encloseDFList] at he
+  | k :: ks, ks', h, he => by
+    simp only [FTree.encloseDFList] at he
+    split at he
+    · rename_i k' hk'
+      simp at he; subst he
+      intro x hx
+      rcases List.mem_cons.mp hx with rfl | hx
+      · exact FTree.encloseDF_tagsOk len unit other ho k _ (h k (by simp)) hk'
+      · exact h x (List.mem_cons_of_mem _ hx)
+    · split at he
+      · rename_i ks'' hks''
+        simp at he; subst he
+        intro x hx
+        rcases List.mem_cons.mp hx with rfl | hx
+        · exact h _ (by simp)
+        · exact FTree.encloseDFList_tagsOk len unit other ho ks ks''
+            (fun k' hk' => h k' (List.mem_cons_of_mem _ hk')) hks'' x hx
+      · simp at he
+end
+
+end Svgbob
+
+namespace Svgbob
+
+/-- every node of the flattened containment forest is safe -/
+theorem fragmentsToNodes_safe (len : List Char → Nat) (unit : Int) (frags : List Frag) :
+    ∀ n ∈ fragmentsToNodes len unit frags, n.Safe := by
+  unfold fragmentsToNodes encloseRecursive
+  apply FTree.intoNodesList_safe
+  apply G.mergeRec_forall _ FTree.TagsOk
+  · intro g it m hm hg hi
+    exact FTree.encloseDF_tagsOk len unit it hi g m hg hm
+  · intro x hx
+    simp only [List.mem_map] at hx
+    obtain ⟨f, _, rfl⟩ := hx
+    exact FTree.TagsOk.node _ _ _ (by simp) (by simp)
+
+/-- executable check of `Node.Safe` for nodes without text leaves and tokens (the fixed `defs`) -/
+def AttrVal.safeB : AttrVal → Bool
+  | .num _ => true
+  | .int _ => true
+  | .lit s => s.toList.all attrChar
+  | .token _ => false
+  | .seq ps => ps.all fun p => match p with | .lit s => s.toList.all attrChar | .num _ => true
+
+theorem AttrVal.safe_of_safeB (v : AttrVal) (h : v.safeB = true) : v.Safe := by
+  cases v with
+  | num n => trivial
+  | int n => trivial
+  | lit s => exact fun c hc => List.all_eq_true.mp h c hc
+  | token t => simp [AttrVal.safeB] at h
+  | seq ps =>
+    intro p hp
+    have := List.all_eq_true.mp h p hp
+    cases p with
+    | lit s => exact fun c hc => List.all_eq_true.mp this c hc
+    | num n => trivial
+
+theorem markerCircle_safe (r : Int) (cls : String) (h : (cls.toList.all attrChar) = true) :
+    (markerCircle r cls).Safe := by
+  refine Node.Safe.elem _ _ _ ?_ (by simp)
+  intro a ha v hv
+  simp only [List.mem_cons, List.mem_nil_iff, or_false] at ha
+  rcases ha with rfl | rfl | rfl | rfl <;> simp at hv <;> subst hv
+  · trivial
+  · trivial
+  · trivial
+  · exact lit_safe_of_decide _ h
+
+theorem markerNode_safe (idv vb : String) (rx ry : Int) (kid : Node)
+    (h1 : (idv.toList.all attrChar) = true) (h2 : (vb.toList.all attrChar) = true)
+    (hk : kid.Safe) : (markerNode idv vb rx ry kid).Safe := by
+  refine Node.Safe.elem _ _ _ ?_ (by intro k hk'; simp at hk'; subst hk'; exact hk)
+  intro a ha v hv
+  simp only [List.mem_cons, List.mem_nil_iff, or_false] at ha
+  rcases ha with rfl | rfl | rfl | rfl | rfl | rfl | rfl <;> simp at hv <;> subst hv
+  · exact lit_safe_of_decide _ h1
+  · exact lit_safe_of_decide _ h2
+  · trivial
+  · trivial
+  · trivial
+  · trivial
+  · exact lit_safe_of_decide _ (by decide)
+
+theorem defsNode_safe : defsNode.Safe := by
+  unfold defsNode
+  refine Node.Safe.elem _ _ _ (by simp) ?_
+  intro k hk
+  simp only [List.mem_cons, List.mem_nil_iff, or_false] at hk
+  have hpoly : ∀ s : String, (s.toList.all attrChar) = true →
+      (Node.elem .polygon [(.points, [.lit s])] []).Safe := by
+    intro s hs
+    refine Node.Safe.elem _ _ _ ?_ (by simp)
+    intro a ha v hv
+    simp at ha; subst ha; simp at hv; subst hv
+    exact lit_safe_of_decide _ hs
+  rcases hk with rfl | rfl | rfl | rfl | rfl
+  · exact markerNode_safe _ _ _ _ _ (by decide) (by decide) (hpoly _ (by decide))
+  · exact markerNode_safe _ _ _ _ _ (by decide) (by decide) (hpoly _ (by decide))
+  · exact markerNode_safe _ _ _ _ _ (by decide) (by decide) (markerCircle_safe _ _ (by decide))
+  · exact markerNode_safe _ _ _ _ _ (by decide) (by decide) (markerCircle_safe _ _ (by decide))
+  · exact markerNode_safe _ _ _ _ _ (by decide) (by decide) (markerCircle_safe _ _ (by decide))
+
+/-- **The whole document is lexically safe**: for every configuration, every set of fragments
+and every legend, all text leaves (including the style sheet) are safe character data and no
+attribute value contains `"`, `<` or `&`. -/
+theorem svgRoot_safe (len : List Char → Nat) (cfg : Cfg) (cells : List (Cell × Char))
+    (css : List (List Char × List Char)) (accepted : List Frag) (groups : List (List Frag)) :
+    (svgRoot len cfg cells css accepted groups).Safe := by
+  unfold svgRoot
+  simp only
+  split
+  all_goals
+    refine Node.Safe.elem _ _ _ ?_ ?_
+    · intro a ha v hv
+      simp only [List.mem_cons, List.mem_nil_iff, or_false] at ha
+      rcases ha with rfl | rfl | rfl | rfl <;> simp at hv <;> subst hv
+      · exact lit_safe_of_decide _ (by decide)
+      · trivial
+      · trivial
+      · exact lit_safe_of_decide _ (by decide)
+    · intro k hk
+      simp only [List.mem_append] at hk
+      rcases hk with (((hk | hk) | hk) | hk) | hk
+      · split at hk
+        · simp at hk; subst hk
+          refine Node.Safe.elem _ _ _ (by simp) ?_
+          intro k' hk'; simp at hk'; subst hk'
+          exact Node.Safe.text _ (escapeCss_safe _)
+        · simp at hk
+      · split at hk
+        · simp at hk; subst hk; exact defsNode_safe
+        · simp at hk
+      · split at hk
+        · simp at hk; subst hk
+          refine Node.Safe.elem _ _ _ ?_ (by simp)
+          intro a ha v hv
+          simp only [List.mem_cons, List.mem_nil_iff, or_false] at ha
+          rcases ha with rfl | rfl | rfl | rfl | rfl <;> simp at hv <;> subst hv
+          · exact lit_safe_of_decide _ (by decide)
+          · trivial
+          · trivial
+          · trivial
+          · trivial
+        · simp at hk
+      · exact fragmentsToNodes_safe _ _ _ k hk
+      · simp only [List.mem_map] at hk
+        obtain ⟨g, _, rfl⟩ := hk
+        refine Node.Safe.elem _ _ _ (by simp) ?_
+        intro k' hk'
+        simp only [List.mem_map] at hk'
+        obtain ⟨f, _, rfl⟩ := hk'
+        exact Frag.toNode_safe _
+
+end Svgbob
